@@ -210,6 +210,193 @@ def fmt_sigs(sigs):
     return ' || '.join(','.join('|'.join(t) for t in s) or '-' for s in sigs)
 
 
+def fetch_width_rule(ctx, R3, X=None):
+    """Operand fetches of _dis take their width from the right mode variable (shared with C10: a fetch of the wrong width over-reads or
+    leaves bytes of the instruction unread)."""
+    X = X or x86model(ctx)
+    arch, E = X.arch, X.env
+    dis = arch.method('x86_mn', '_dis')
+    # prefix toggles
+    for pfx, attr in ((0x66, 'self.opmode'), (0x67, 'self.admode')):
+        hit = None
+        for n in walk_no_nested(dis):
+            if isinstance(n, ast.If) and isinstance(n.test, ast.Compare) and isinstance(n.test.left, ast.Constant) and n.test.left.value == pfx \
+                    and isinstance(n.test.ops[0], ast.In) and u(n.test.comparators[0]) == 'read_prefix':
+                for s in n.body:
+                    if isinstance(s, ast.Assign) and u(s.targets[0]).startswith('self.'):
+                        hit = s
+        inst = 'prefix %02X' % pfx
+        if hit is None:
+            R3.violation(inst, 'mode:prefix:%02X:none' % pfx, 'prefix %02X no longer toggles a mode in _dis' % pfx, where(arch, dis))
+        elif u(hit.targets[0]) == attr and u(hit.value).replace(' ', '') == '[u16,u32][%s==u16]' % attr:
+            R3.ok(inst, sample='%02X toggles %s' % (pfx, attr))
+        else:
+            R3.violation(inst, 'mode:prefix:%02X:%s' % (pfx, norm(hit)), 'prefix %02X must toggle %s between u16 and u32; found %s' % (pfx, attr, norm(hit)), where(arch, hit))
+    WANT = []
+    for n in walk_no_nested(dis):
+        if isinstance(n, ast.Call) and u(n.func) == 'x86mndb.get_afs' and len(n.args) == 3:
+            WANT.append(('ModRM operand and displacement', n, u(n.args[2]), 'self.admode'))
+        if isinstance(n, ast.Call) and u(n.func) == 'x86mndb.get_im_fmt' and len(n.args) == 3:
+            WANT.append(('imm/ims immediate', n, u(n.args[1]), 'self.opmode'))
+    # the moffs branch
+    mim_if = None
+    for n in walk_no_nested(dis):
+        if isinstance(n, ast.If) and u(n.test) == 'dib == mim':
+            mim_if = n
+    if mim_if is None:
+        raise AnalysisError('_dis: branch `dib == mim` not found')
+    import struct as _struct
+    from ..consteval import Evaluator as _Ev, Obj as _Obj, Native as _Nat, NotConst as _NC
+    A_ = X.afs
+    for opm in ('u32', 'u16'):
+        for adm in ('u32', 'u16'):
+            for byte in (False, True):
+                me = _Obj('self')
+                me.opmode, me.admode = getattr(A_, opm), getattr(A_, adm)
+                st_ = _Obj('struct')
+                st_.calcsize = _Nat(_struct.calcsize)
+                st_.unpack = _Nat(lambda fmt, data: [('VALUE', fmt, data)])
+                bn = _Obj('bin')
+                bn.readbs = _Nat(lambda l=1: ('BYTES', l))
+                mm_ = _Obj('m')
+                mm_.modifs = {E['w8']: byte}
+                scope = {'self': me, 'struct': st_, 'bin': bn, 'm': mm_, 'x86_afs': A_, 'dib_out': [], 'uint32': _Nat(lambda v: v), 'w8': E['w8'], 'u08': A_.u08}
+                ev_ = _Ev({})
+                ev_.env = scope
+                try:
+                    ev_.exec_stmts(mim_if.body, scope)
+                except _NC as e:
+                    raise AnalysisError('_dis: the moffs branch is outside the evaluable subset: %s' % e)
+                inst = 'moffs operand-size %s address-size %s %s' % (opm, adm, 'byte' if byte else 'full')
+                out = scope['dib_out']
+                want_len = 4 if adm == 'u32' else 2
+                want_size = A_.u08 if byte else getattr(A_, opm)
+                problems = []
+                if len(out) != 1 or not isinstance(out[0], dict):
+                    problems.append('does not append exactly one operand')
+                else:
+                    v = out[0].get(A_.imm)
+                    if not (isinstance(v, tuple) and v[0] == 'VALUE' and isinstance(v[2], tuple) and v[2][0] == 'BYTES'):
+                        problems.append('offset is not unpacked from bytes read from the stream')
+                    else:
+                        if v[2][1] != want_len:
+                            problems.append('reads %s offset bytes, the address size %s has %d' % (v[2][1], adm, want_len))
+                        if _struct.calcsize(v[1]) != want_len:
+                            problems.append('unpacks with format %r (%d bytes)' % (v[1], _struct.calcsize(v[1])))
+                    if out[0].get(A_.size) != want_size:
+                        problems.append('operand size is %s, expected %s' % (out[0].get(A_.size), want_size))
+                    if out[0].get(A_.ad) is not True:
+                        problems.append('operand is not marked as memory')
+                if problems:
+                    R3.violation(inst, 'mode:moffs:%s:%s:%s' % (opm, adm, ';'.join(problems)[:60]), 'moffs operand (A0..A3) with operand size %s and address size %s: %s' % (opm, adm, '; '.join(problems)),
+                                 where(arch, mim_if), witness='66 a1 78 56 34 12 must be 6 bytes long')
+                else:
+                    R3.ok(inst, sample='%s: %d offset bytes, operand size %s' % (inst, want_len, want_size))
+    # register operands
+    for n in walk_no_nested(dis):
+        if isinstance(n, ast.If) and u(n.test) == 'm.modifs[w8]' and n.orelse and len(n.body) == 1 and len(n.orelse) == 1:
+            a, b = n.body[0], n.orelse[0]
+            if isinstance(a, ast.Assign) and isinstance(b, ast.Assign) and u(a.targets[0]) == u(b.targets[0]) == 'mafs[x86_afs.size]' and u(a.value) == 'x86_afs.u08':
+                WANT.append(('register operand size', b, u(b.value), 'self.opmode'))
+    # fixed immediates narrowed under the 16-bit operand size: the statements between the branch test and the
+    # computation of the byte count are evaluated for every (token, operand size, address size) combination
+    fixed_if = None
+    for n in walk_no_nested(dis):
+        if isinstance(n, ast.If) and isinstance(n.test, ast.Compare) and u(n.test.left) == 'dib' and isinstance(n.test.ops[0], ast.In) \
+                and u(n.test.comparators[0]).replace(' ', '') == '[u08,s08,u16,s16,u32,s32]':
+            fixed_if = n
+    if fixed_if is None:
+        raise AnalysisError('_dis: branch for fixed-width immediates (dib in [u08, ..., s32]) not found')
+    pre = []
+    for st in fixed_if.body:
+        if isinstance(st, ast.Assign) and 'struct.calcsize' in u(st.value):
+            break
+        pre.append(st)
+    else:
+        raise AnalysisError('_dis: fixed-width immediate branch no longer computes its byte count with struct.calcsize')
+    from ..consteval import Evaluator, Obj, NotConst
+    toks = dict((k, getattr(afs_, k)) for k in ('u08', 's08', 'u16', 's16', 'u32', 's32')) if False else None
+    A = X.afs
+    names = {'u08': A.u08, 's08': A.s08, 'u16': A.u16, 's16': A.s16, 'u32': A.u32, 's32': A.s32}
+    EXPECT = {('u32', 'u16'): 'u16', ('s32', 'u16'): 's16'}
+    for tok in ('u08', 's08', 'u16', 's16', 'u32', 's32'):
+        for opm in ('u32', 'u16'):
+            for adm in ('u32', 'u16'):
+                me = Obj('self')
+                me.opmode, me.admode = names[opm], names[adm]
+                scope = dict(names)
+                scope.update({'self': me, 'dib': names[tok], 'x86_afs': A})
+                ev_ = Evaluator({})
+                ev_.env = scope
+                try:
+                    ev_.exec_stmts(pre, scope)
+                except NotConst as e:
+                    raise AnalysisError('_dis: narrowing of fixed-width immediates is outside the evaluable subset: %s' % e)
+                want = names[EXPECT.get((tok, opm), tok)]
+                inst = 'fixed immediate %s, operand size %s, address size %s' % (tok, opm, adm)
+                if scope['dib'] == want:
+                    R3.ok(inst, sample='%s under operand size %s is read as %s' % (tok, opm, want), nontrivial=(tok in ('u32', 's32')))
+                else:
+                    R3.violation(inst, 'mode:fixed-imm:%s:%s:%s' % (tok, opm, adm), 'a fixed-width immediate %s with operand size %s and address size %s is read as %s; IA-32 reads %s'
+                                 % (tok, opm, adm, scope['dib'], want), where(arch, fixed_if), witness='66 e8 12 34 90 90 must be 4 bytes long' if tok == 's32' else None)
+    from collections import Counter
+    kinds = Counter(w[0] for w in WANT)
+    for kind_, least in (('ModRM operand and displacement', 2), ('imm/ims immediate', 1), ('register operand size', 2)):
+        if kinds.get(kind_, 0) < least:
+            raise AnalysisError('_dis: expected at least %d site(s) of kind "%s", found %d (the construct was rewritten: re-read and extend the rule)' % (least, kind_, kinds.get(kind_, 0)))
+    for what, n, got, want in WANT:
+        inst = '%s:%s' % (what, norm(n)[:60])
+        if got == want:
+            R3.ok(inst + '@%d' % (n.lineno - dis.lineno), sample='%s: %s' % (what, want))
+        else:
+            R3.violation(inst, 'mode:%s:%s' % (what, got), 'the %s is sized by %s; IA-32 sizes it by %s' % (what, got, {'self.admode': 'the address size (0x67)',
+                         'self.opmode': 'the operand size (0x66)'}.get(want, want)), where(arch, n),
+                         witness='66 a1 78 56 34 12 must be 6 bytes long' if what.startswith('moffs') else None)
+    # get_afs: displacement tokens
+    ga = arch.method('x86allmncs', 'get_afs')
+    FMT = {'x86_afs.u08': ('B', 1), 'x86_afs.s08': ('b', 1), 'x86_afs.u16': ('H', 2), 'x86_afs.u32': ('I', 4), 'x86_afs.s16': ('h', 2), 'x86_afs.s32': ('i', 4)}
+    n_tok = 0
+    for n in ast.walk(ga):
+        if isinstance(n, ast.If) and isinstance(n.test, ast.Compare) and u(n.test.left) == 'a[x86_afs.imm]' and u(n.test.comparators[0]) in FMT:
+            tok = u(n.test.comparators[0])
+            n_tok += 1
+            calls = [x for s in n.body for x in ast.walk(s) if isinstance(x, ast.Call) and u(x.func) == 'struct.unpack']
+            inst = 'get_afs:%s' % tok
+            if len(calls) != 1:
+                R3.violation(inst, 'disp:%s:shape' % tok, 'get_afs: displacement token %s is not read by one struct.unpack' % tok, where(arch, n))
+                continue
+            call = calls[0]
+            fmt = call.args[0].value if isinstance(call.args[0], ast.Constant) else None
+            rd = call.args[1]
+            cnt = 1
+            if isinstance(rd, ast.Call) and u(rd.func) == 'bin.readbs':
+                cnt = rd.args[0].value if rd.args and isinstance(rd.args[0], ast.Constant) else (1 if not rd.args else None)
+            else:
+                cnt = None
+            if (fmt, cnt) == FMT[tok]:
+                R3.ok(inst, sample='displacement %s: unpack(%r, readbs(%d))' % (tok, fmt, cnt))
+            else:
+                R3.violation(inst, 'disp:%s:%s:%s' % (tok, fmt, cnt), 'get_afs reads displacement token %s with format %r from %s byte(s); expected %r from %d'
+                             % (tok, fmt, cnt, FMT[tok][0], FMT[tok][1]), where(arch, call))
+    if n_tok < 4:
+        raise AnalysisError('get_afs: only %d displacement token branches found' % n_tok)
+    # get_afs: table per mode
+    pairs = {}
+    for n in ast.walk(ga):
+        if isinstance(n, ast.If) and isinstance(n.test, ast.Compare) and u(n.test.left) == 'size_m':
+            mode = u(n.test.comparators[0])
+            for s in n.body:
+                if isinstance(s, ast.Assign) and u(s.targets[0]) == 'db_afs':
+                    pairs[mode] = u(s.value)
+    for mode, want in (('u16', 'self.db_afs_16'), ('u32', 'self.db_afs'), ('mm', 'self.db_afs_mm'), ('xmm', 'self.db_afs_xmm')):
+        if pairs.get(mode) == want:
+            R3.ok('get_afs:table:%s' % mode, sample='address mode %s -> %s' % (mode, want))
+        else:
+            R3.violation('get_afs:table:%s' % mode, 'afs-table:%s:%s' % (mode, pairs.get(mode)), 'get_afs uses %s for mode %s, expected %s' % (pairs.get(mode), mode, want),
+                         where(arch, ga))
+
+
+
 def run(ctx, report):
     X = x86model(ctx)
     arch, E = X.arch, X.env
@@ -428,184 +615,7 @@ def run(ctx, report):
 
     # ---------------------------------------------------------------- D3 mode selectors
     R3 = report.rule('C01.D3', 'every operand fetch takes its width from the right mode (address size vs operand size)', floor=12)
-    # prefix toggles
-    for pfx, attr in ((0x66, 'self.opmode'), (0x67, 'self.admode')):
-        hit = None
-        for n in walk_no_nested(dis):
-            if isinstance(n, ast.If) and isinstance(n.test, ast.Compare) and isinstance(n.test.left, ast.Constant) and n.test.left.value == pfx \
-                    and isinstance(n.test.ops[0], ast.In) and u(n.test.comparators[0]) == 'read_prefix':
-                for s in n.body:
-                    if isinstance(s, ast.Assign) and u(s.targets[0]).startswith('self.'):
-                        hit = s
-        inst = 'prefix %02X' % pfx
-        if hit is None:
-            R3.violation(inst, 'mode:prefix:%02X:none' % pfx, 'prefix %02X no longer toggles a mode in _dis' % pfx, where(arch, dis))
-        elif u(hit.targets[0]) == attr and u(hit.value).replace(' ', '') == '[u16,u32][%s==u16]' % attr:
-            R3.ok(inst, sample='%02X toggles %s' % (pfx, attr))
-        else:
-            R3.violation(inst, 'mode:prefix:%02X:%s' % (pfx, norm(hit)), 'prefix %02X must toggle %s between u16 and u32; found %s' % (pfx, attr, norm(hit)), where(arch, hit))
-    WANT = []
-    for n in walk_no_nested(dis):
-        if isinstance(n, ast.Call) and u(n.func) == 'x86mndb.get_afs' and len(n.args) == 3:
-            WANT.append(('ModRM operand and displacement', n, u(n.args[2]), 'self.admode'))
-        if isinstance(n, ast.Call) and u(n.func) == 'x86mndb.get_im_fmt' and len(n.args) == 3:
-            WANT.append(('imm/ims immediate', n, u(n.args[1]), 'self.opmode'))
-    # the moffs branch
-    mim_if = None
-    for n in walk_no_nested(dis):
-        if isinstance(n, ast.If) and u(n.test) == 'dib == mim':
-            mim_if = n
-    if mim_if is None:
-        raise AnalysisError('_dis: branch `dib == mim` not found')
-    import struct as _struct
-    from ..consteval import Evaluator as _Ev, Obj as _Obj, Native as _Nat, NotConst as _NC
-    A_ = X.afs
-    for opm in ('u32', 'u16'):
-        for adm in ('u32', 'u16'):
-            for byte in (False, True):
-                me = _Obj('self')
-                me.opmode, me.admode = getattr(A_, opm), getattr(A_, adm)
-                st_ = _Obj('struct')
-                st_.calcsize = _Nat(_struct.calcsize)
-                st_.unpack = _Nat(lambda fmt, data: [('VALUE', fmt, data)])
-                bn = _Obj('bin')
-                bn.readbs = _Nat(lambda l=1: ('BYTES', l))
-                mm_ = _Obj('m')
-                mm_.modifs = {E['w8']: byte}
-                scope = {'self': me, 'struct': st_, 'bin': bn, 'm': mm_, 'x86_afs': A_, 'dib_out': [], 'uint32': _Nat(lambda v: v), 'w8': E['w8'], 'u08': A_.u08}
-                ev_ = _Ev({})
-                ev_.env = scope
-                try:
-                    ev_.exec_stmts(mim_if.body, scope)
-                except _NC as e:
-                    raise AnalysisError('_dis: the moffs branch is outside the evaluable subset: %s' % e)
-                inst = 'moffs operand-size %s address-size %s %s' % (opm, adm, 'byte' if byte else 'full')
-                out = scope['dib_out']
-                want_len = 4 if adm == 'u32' else 2
-                want_size = A_.u08 if byte else getattr(A_, opm)
-                problems = []
-                if len(out) != 1 or not isinstance(out[0], dict):
-                    problems.append('does not append exactly one operand')
-                else:
-                    v = out[0].get(A_.imm)
-                    if not (isinstance(v, tuple) and v[0] == 'VALUE' and isinstance(v[2], tuple) and v[2][0] == 'BYTES'):
-                        problems.append('offset is not unpacked from bytes read from the stream')
-                    else:
-                        if v[2][1] != want_len:
-                            problems.append('reads %s offset bytes, the address size %s has %d' % (v[2][1], adm, want_len))
-                        if _struct.calcsize(v[1]) != want_len:
-                            problems.append('unpacks with format %r (%d bytes)' % (v[1], _struct.calcsize(v[1])))
-                    if out[0].get(A_.size) != want_size:
-                        problems.append('operand size is %s, expected %s' % (out[0].get(A_.size), want_size))
-                    if out[0].get(A_.ad) is not True:
-                        problems.append('operand is not marked as memory')
-                if problems:
-                    R3.violation(inst, 'mode:moffs:%s:%s:%s' % (opm, adm, ';'.join(problems)[:60]), 'moffs operand (A0..A3) with operand size %s and address size %s: %s' % (opm, adm, '; '.join(problems)),
-                                 where(arch, mim_if), witness='66 a1 78 56 34 12 must be 6 bytes long')
-                else:
-                    R3.ok(inst, sample='%s: %d offset bytes, operand size %s' % (inst, want_len, want_size))
-    # register operands
-    for n in walk_no_nested(dis):
-        if isinstance(n, ast.If) and u(n.test) == 'm.modifs[w8]' and n.orelse and len(n.body) == 1 and len(n.orelse) == 1:
-            a, b = n.body[0], n.orelse[0]
-            if isinstance(a, ast.Assign) and isinstance(b, ast.Assign) and u(a.targets[0]) == u(b.targets[0]) == 'mafs[x86_afs.size]' and u(a.value) == 'x86_afs.u08':
-                WANT.append(('register operand size', b, u(b.value), 'self.opmode'))
-    # fixed immediates narrowed under the 16-bit operand size: the statements between the branch test and the
-    # computation of the byte count are evaluated for every (token, operand size, address size) combination
-    fixed_if = None
-    for n in walk_no_nested(dis):
-        if isinstance(n, ast.If) and isinstance(n.test, ast.Compare) and u(n.test.left) == 'dib' and isinstance(n.test.ops[0], ast.In) \
-                and u(n.test.comparators[0]).replace(' ', '') == '[u08,s08,u16,s16,u32,s32]':
-            fixed_if = n
-    if fixed_if is None:
-        raise AnalysisError('_dis: branch for fixed-width immediates (dib in [u08, ..., s32]) not found')
-    pre = []
-    for st in fixed_if.body:
-        if isinstance(st, ast.Assign) and 'struct.calcsize' in u(st.value):
-            break
-        pre.append(st)
-    else:
-        raise AnalysisError('_dis: fixed-width immediate branch no longer computes its byte count with struct.calcsize')
-    from ..consteval import Evaluator, Obj, NotConst
-    toks = dict((k, getattr(afs_, k)) for k in ('u08', 's08', 'u16', 's16', 'u32', 's32')) if False else None
-    A = X.afs
-    names = {'u08': A.u08, 's08': A.s08, 'u16': A.u16, 's16': A.s16, 'u32': A.u32, 's32': A.s32}
-    EXPECT = {('u32', 'u16'): 'u16', ('s32', 'u16'): 's16'}
-    for tok in ('u08', 's08', 'u16', 's16', 'u32', 's32'):
-        for opm in ('u32', 'u16'):
-            for adm in ('u32', 'u16'):
-                me = Obj('self')
-                me.opmode, me.admode = names[opm], names[adm]
-                scope = dict(names)
-                scope.update({'self': me, 'dib': names[tok], 'x86_afs': A})
-                ev_ = Evaluator({})
-                ev_.env = scope
-                try:
-                    ev_.exec_stmts(pre, scope)
-                except NotConst as e:
-                    raise AnalysisError('_dis: narrowing of fixed-width immediates is outside the evaluable subset: %s' % e)
-                want = names[EXPECT.get((tok, opm), tok)]
-                inst = 'fixed immediate %s, operand size %s, address size %s' % (tok, opm, adm)
-                if scope['dib'] == want:
-                    R3.ok(inst, sample='%s under operand size %s is read as %s' % (tok, opm, want), nontrivial=(tok in ('u32', 's32')))
-                else:
-                    R3.violation(inst, 'mode:fixed-imm:%s:%s:%s' % (tok, opm, adm), 'a fixed-width immediate %s with operand size %s and address size %s is read as %s; IA-32 reads %s'
-                                 % (tok, opm, adm, scope['dib'], want), where(arch, fixed_if), witness='66 e8 12 34 90 90 must be 4 bytes long' if tok == 's32' else None)
-    from collections import Counter
-    kinds = Counter(w[0] for w in WANT)
-    for kind_, least in (('ModRM operand and displacement', 2), ('imm/ims immediate', 1), ('register operand size', 2)):
-        if kinds.get(kind_, 0) < least:
-            raise AnalysisError('_dis: expected at least %d site(s) of kind "%s", found %d (the construct was rewritten: re-read and extend the rule)' % (least, kind_, kinds.get(kind_, 0)))
-    for what, n, got, want in WANT:
-        inst = '%s:%s' % (what, norm(n)[:60])
-        if got == want:
-            R3.ok(inst + '@%d' % (n.lineno - dis.lineno), sample='%s: %s' % (what, want))
-        else:
-            R3.violation(inst, 'mode:%s:%s' % (what, got), 'the %s is sized by %s; IA-32 sizes it by %s' % (what, got, {'self.admode': 'the address size (0x67)',
-                         'self.opmode': 'the operand size (0x66)'}.get(want, want)), where(arch, n),
-                         witness='66 a1 78 56 34 12 must be 6 bytes long' if what.startswith('moffs') else None)
-    # get_afs: displacement tokens
-    ga = arch.method('x86allmncs', 'get_afs')
-    FMT = {'x86_afs.u08': ('B', 1), 'x86_afs.s08': ('b', 1), 'x86_afs.u16': ('H', 2), 'x86_afs.u32': ('I', 4), 'x86_afs.s16': ('h', 2), 'x86_afs.s32': ('i', 4)}
-    n_tok = 0
-    for n in ast.walk(ga):
-        if isinstance(n, ast.If) and isinstance(n.test, ast.Compare) and u(n.test.left) == 'a[x86_afs.imm]' and u(n.test.comparators[0]) in FMT:
-            tok = u(n.test.comparators[0])
-            n_tok += 1
-            calls = [x for s in n.body for x in ast.walk(s) if isinstance(x, ast.Call) and u(x.func) == 'struct.unpack']
-            inst = 'get_afs:%s' % tok
-            if len(calls) != 1:
-                R3.violation(inst, 'disp:%s:shape' % tok, 'get_afs: displacement token %s is not read by one struct.unpack' % tok, where(arch, n))
-                continue
-            call = calls[0]
-            fmt = call.args[0].value if isinstance(call.args[0], ast.Constant) else None
-            rd = call.args[1]
-            cnt = 1
-            if isinstance(rd, ast.Call) and u(rd.func) == 'bin.readbs':
-                cnt = rd.args[0].value if rd.args and isinstance(rd.args[0], ast.Constant) else (1 if not rd.args else None)
-            else:
-                cnt = None
-            if (fmt, cnt) == FMT[tok]:
-                R3.ok(inst, sample='displacement %s: unpack(%r, readbs(%d))' % (tok, fmt, cnt))
-            else:
-                R3.violation(inst, 'disp:%s:%s:%s' % (tok, fmt, cnt), 'get_afs reads displacement token %s with format %r from %s byte(s); expected %r from %d'
-                             % (tok, fmt, cnt, FMT[tok][0], FMT[tok][1]), where(arch, call))
-    if n_tok < 4:
-        raise AnalysisError('get_afs: only %d displacement token branches found' % n_tok)
-    # get_afs: table per mode
-    pairs = {}
-    for n in ast.walk(ga):
-        if isinstance(n, ast.If) and isinstance(n.test, ast.Compare) and u(n.test.left) == 'size_m':
-            mode = u(n.test.comparators[0])
-            for s in n.body:
-                if isinstance(s, ast.Assign) and u(s.targets[0]) == 'db_afs':
-                    pairs[mode] = u(s.value)
-    for mode, want in (('u16', 'self.db_afs_16'), ('u32', 'self.db_afs'), ('mm', 'self.db_afs_mm'), ('xmm', 'self.db_afs_xmm')):
-        if pairs.get(mode) == want:
-            R3.ok('get_afs:table:%s' % mode, sample='address mode %s -> %s' % (mode, want))
-        else:
-            R3.violation('get_afs:table:%s' % mode, 'afs-table:%s:%s' % (mode, pairs.get(mode)), 'get_afs uses %s for mode %s, expected %s' % (pairs.get(mode), mode, want),
-                         where(arch, ga))
+    fetch_width_rule(ctx, R3, X)
 
     # ---------------------------------------------------------------- D4 ModRM / SIB tables
     R4 = report.rule('C01.D4', 'ModRM/SIB addressing tables and register numbering are the IA-32 definition', floor=1500)
